@@ -1178,7 +1178,8 @@ Proof.
   - destruct box as [|b box]; [exact Hb|].
     inversion Hb as [|? ? Hb0 Hb']; subst. cbn [update_box].
     constructor; [|now apply IH].
-    destruct (key_changed c old s); [|exact Hb0].
+    destruct (key_changed c old s || match b with None => true | Some _ => false end);
+      [|exact Hb0].
     destruct d as [dcol|]; [|exact Hb0].
     destruct (nth s (c_rng c) None) as [[lo hi]|]; [|exact Hb0].
     unfold box_len, box_of. destruct (lo =? hi).
